@@ -11,7 +11,9 @@ R10.7 HighT and LowT method families are mirror images at term level
 
 Conditional expressions in the thermodynamic functions are lowered to if / else statements before the paths are extracted
 (`_LowerConditionals`); the manager functions are analysed with loops over literal cases written out and procedures around the
-anchored calls looked into (`c01.normalised`).
+anchored calls looked into (`c01.normalised`).  e, w and de of one phase may be written in terms of each other (e = w - p, w = e + p,
+csq = w / (T de)): the identities of R10.3 / R10.4 / R10.7 are decided with the sibling methods e / w / de of the SAME phase looked
+through, never those of the other phase.
 """
 from __future__ import annotations
 
@@ -183,6 +185,10 @@ def rules(chk: Check) -> None:
     T = sp.Symbol("temperature", real=True)
     exu = Extractor(S, positive={"temperature"})  # nothing inlined
     T = exu.sym("temperature")
+    # e, w and de of one phase may be written in terms of each other (e = w - p, w = e + p, ...): the identities are decided with the
+    # definitions of the sibling methods e / w / de of the SAME phase looked through, so that every term ends in p, dp, ddp of that phase.
+    # A method of the other phase is never looked through: it stays an uninterpreted function and the identity fails.
+    sib = {X: Extractor(S, positive={"temperature"}, inline=lambda n, X=X: n in {f"{TH}.{f}{X}" for f in ("e", "w", "de")}) for X in PHASES}
 
     branch: dict = {}
     # ---------------- R10.1 / R10.2 / R10.5 -------------------------------
@@ -191,10 +197,11 @@ def rules(chk: Check) -> None:
         for f in ("p", "dp", "ddp", "csq"):
             fi = _positional_free_energy_calls(S, S.func(f"{TH}.{f}{X}"))
             chk.touch(fi.name)
-            paths = exu.returns(fi)
+            exf = sib[X] if f == "csq" else exu        # csq = dp/de may equally be written w/(T de): branches compared as terms in p, dp, ddp
+            paths = exf.returns(fi)
             got = {}
             for p in paths:
-                c, foreign = _classify(p, X, T, exu)
+                c, foreign = _classify(p, X, T, exf)
                 chk.ob("R10.1", fi.where(), f"{f}{X}: branch guard `{p.gtext()}` compares the temperature with the bounds of the {X} phase only",
                        not foreign, "; ".join(foreign), key=f"guard|{f}{X}|{c}")
                 chk.ob("R10.1", fi.where(), f"{f}{X}: branch guard `{p.gtext()}` is strict, so exactly at the range end the tabulated branch is taken "
@@ -247,7 +254,7 @@ def rules(chk: Check) -> None:
         for f, want in (("e", Tt * DP(Tt) - P(Tt)), ("w", Tt * DP(Tt)), ("de", Tt * DDP(Tt))):
             fi = S.func(f"{TH}.{f}{X}")
             chk.touch(fi.name)
-            v = exu.single(fi)
+            v = sib[X].single(fi)
             ok, how = is_zero(v - want.subs(Tt, T), chk.seed)
             chk.ob("R10.3", fi.where(), f"{f}{X}(T) == {want}", ok, f"found {v}", key=f"rel|{f}{X}", how=how)
         # de is the T-derivative of e when dp = p', ddp = dp'
@@ -308,7 +315,7 @@ def rules(chk: Check) -> None:
                     late.append(f"self.{attr} not yet refreshed at line {getattr(q, 'lineno', '?')}")
     chk.ob("R10.6", fi.where(), "setExtrapolate refreshes the four range ends before it evaluates p / w / csq at them (the table-or-template branch of "
            "those functions is chosen by the stored ends)", bool(users) and not late, "; ".join(sorted(set(late)))[:300], key="refresh-before-matching")
-    ps = exu.paths(fi)
+    ps = inl.paths(fi)        # e / w / de looked through: the coefficients are terms in csq, p, dp, ddp of a named phase at a named temperature
     if len(ps) != 1:
         raise Undecided("setExtrapolate: expected straight-line code")
     env = ps[0].env
@@ -537,7 +544,7 @@ def rules(chk: Check) -> None:
             chk.ob("R10.7", S.func(f"{TH}.{f}LowT").where(), f"{f}LowT {side} branch mirrors {f}HighT", ok, how,
                    key=f"mirror|{f}|{side}", how=how)
     for f in ("e", "de", "w"):
-        a, b = exu.single(S.func(f"{TH}.{f}HighT")), exu.single(S.func(f"{TH}.{f}LowT"))
+        a, b = sib["HighT"].single(S.func(f"{TH}.{f}HighT")), sib["LowT"].single(S.func(f"{TH}.{f}LowT"))      # siblings of the same phase looked through
         ok, how = is_zero(mirror(a) - b, chk.seed)
         chk.ob("R10.7", S.func(f"{TH}.{f}LowT").where(), f"{f}LowT mirrors {f}HighT", ok, how, key=f"mirror|{f}", how=how)
 
